@@ -948,6 +948,23 @@ fn check_polypoint<T: Sc>(o: &mut Out, case: &Case, p: &[Coord<T>], ex: &[XP], w
                 judge(o, case, "winding_order", "LineString(ring)", e1, call(|| wo_name(g.winding_order())));
                 judge(o, case, "winding_order", "LineString(ring)/reversed", e2, call(|| wo_name(rv.winding_order())));
                 judge(o, case, "winding_order", "LineString(ring)/rotated", e1, call(|| wo_name(rot.winding_order())));
+                // the same ring written from its lexicographically least vertex (the pivot of winding_order) with the closing
+                // coordinate repeated: the extra copies add no point and no area
+                {
+                    let open = &g.0[..g.0.len() - 1];
+                    let li = (0..open.len()).min_by(|&a, &b| (open[a].x, open[a].y).partial_cmp(&(open[b].x, open[b].y)).unwrap()).unwrap();
+                    let mut lf = open.to_vec();
+                    lf.rotate_left(li);
+                    let f = lf[0];
+                    let mut v1 = lf.clone();
+                    v1.extend([f, f]);
+                    let mut v2 = vec![f];
+                    v2.extend(lf.iter().cloned());
+                    v2.extend([f, f, f]);
+                    let (r1, r2) = (LineString::new(v1), LineString::new(v2));
+                    judge(o, case, "winding_order", "LineString(ring)/least_first_closing_repeated", e1, call(|| wo_name(r1.winding_order())));
+                    judge(o, case, "winding_order", "LineString(ring)/least_first_repeated_at_both_ends", e1, call(|| wo_name(r2.winding_order())));
+                }
                 judge(o, case, "winding_order", "LineString(ring).is_ccw", bname(sg > 0), call(|| bname(g.is_ccw())));
                 judge(o, case, "winding_order", "LineString(ring).is_cw", bname(sg < 0), call(|| bname(g.is_cw())));
                 o.st.add(if sg > 0 { "ring:ccw" } else { "ring:cw" });
